@@ -43,8 +43,9 @@ TRUSTED = [
     "instantiated by concrete Coq codecs in the correspondence and tested on every generated text and byte array",
     "harness/scen.py: scenario builders through the public API, independent schema computation, identity-based canonical "
     "observation of a CAS (never _find_all_fs / to_* / typecheck)",
-    "Reach facts used as boolean premises until ReachProofs provides them: the traversal files every structure under "
-    "the id it carries and is stable when repeated (wf_jsonb / stableb are evaluated on every case)",
+    "ReachProofs (ids_assigned, find_all_shape, find_all_each_once) for what the traversal leaves behind; that a second "
+    "traversal finds the same structures (stableb) and the reader-model = denotation agreement are boolean premises "
+    "evaluated inside Coq on every case",
 ]
 ASSUMPTIONS = [
     "user type names do not start with the reserved pseudo-package 'uima.noNamespace.' and do not end in '[]'",
@@ -303,6 +304,11 @@ def run_impl(cassis, sc):
             rec["tsdump"] = ts_dump(loaded.typesystem)
             rec["resave"] = J.parse(_to_json(loaded, cfg["mode"], cfg["pretty"], cfg["ascii"], "str"))
             rec["canon_after_resave"] = scen.canon(loaded, "json")
+            # the id generator was reseeded past every id of the document (sofas included)
+            taken = {int(i) for i in rec["canon"]["fs"]} | {s_["id"] for s_ in rec["canon"]["sofas"]}
+            fresh = loaded.typesystem.get_type(scen.ANNOTATION)(begin=0, end=0)
+            loaded.add(fresh, keep_id=False)
+            rec["fresh_id_collides"] = fresh.xmiID in taken
         except Exception as e:  # noqa
             rec["error"] = f"{type(e).__name__}: {e}"
         obs["loads"].append(rec)
@@ -382,6 +388,8 @@ def oracle(cassis, sc, obs):
         d = _diff(want, rec["canon_after_resave"])
         if d:
             return f"re-serialising changed the loaded CAS ({tag}): {d}"
+        if rec.get("fresh_id_collides"):
+            return f"a structure added after loading got an id the document already uses ({tag})"
         if canon_doc(rec["resave"]) != canon_doc(obs["doc"]):
             return f"re-serialised JSON value differs ({tag}): {_jdiff(canon_doc(obs['doc']), canon_doc(rec['resave']))}"
         dump = rec["tsdump"]
